@@ -52,3 +52,5 @@ def run(ctx):
     from ..spec import padding as P
     cmp_fn(ctx, 'Blakepadding.__init__', PAD, 'Blakepadding.__init__', P.BLAKEPAD_INIT)
     cmp_fn(ctx, 'Nullpadding.lastblock', PAD, 'Nullpadding.lastblock', P.NULL_LAST)
+
+    dependencies(ctx, ['crysp/bits.py', 'crysp/blake.py', 'crysp/padding.py', 'crysp/poly.py', 'crysp/sha.py'], 'C11')
